@@ -140,6 +140,10 @@ def cases(shard, nshards, seed, tier):
     for fn in ("tests/4gqj-assembly1.cif", "tests/1ehz-assembly-1.cif", "tests/1A1T_1_B.cif", "tests/4qln.pdb", "tests/4WTI_1_T-P.cif"):
         if mine():
             yield {"family": "corpus-file", "file": fn}
+    # parse a large table, keep a subset (one model / a few chains, as the splitter does), then fit
+    for i in range(6 if tier == "quick" else 60):
+        if mine():
+            yield {"family": "subset", "i": i}
     for kind in (["many-chains", "many-residues"] if tier == "quick" else ["many-chains", "many-residues", "many-atoms", "exactly-62-chains", "exactly-9999-residues"]):
         if mine():
             yield {"family": "limit", "kind": kind}
@@ -189,6 +193,27 @@ def run_case(case, rec):
             if src == "PDB" and not emit.fits_pdb(rows):
                 src = "mmCIF"
         ctx["mode"] = mode
+    elif fam == "subset":
+        rng = random.Random(f"{seed}:C10:subset:{case['i']}")
+        rows = []
+        serial = 0
+        nbig = rng.choice([64, 70, 100])
+        for c in range(3):
+            for a in ("P", "C1'", "N1"):
+                serial += 1
+                rows.append(dict(_row(serial, a, f"K{c}x", 5 + c, serial), model=1))
+        for c in range(nbig):
+            for a in ("P", "C1'"):
+                serial += 1
+                rows.append(dict(_row(serial, a, f"M{c:03d}", 1, serial), model=2))
+        df_all = p2.parse_cif_atoms(emit.emit_cif(rows))
+        keep_model = rng.choice([1, 1, 2])
+        df = df_all[df_all["pdbx_PDB_model_num"] == keep_model].copy()
+        df.attrs["format"] = "mmCIF"
+        sub = [r for r in rows if r["model"] == keep_model]
+        ctx["kept-model"] = keep_model
+        _drive(rec, df, sub, ctx, "mmCIF")
+        return
     elif fam == "corpus-file":
         path = os.path.join(core.REPO, case["file"])
         src = "mmCIF" if case["file"].endswith(".cif") else "PDB"
